@@ -142,17 +142,18 @@ def referrersOf (ents : Map EKey Payload) (ni : NI) : Key → Option Nat
 
 def handleDel (st : RibSt) (op : Op) (oks fails : List Nat) (fatal : Bool) : RibSt :=
   -- C03 monitor on the verdict, judged on the implementation's own contents before the call: a
-  -- well-formed DELETE of a group or next-hop that no installed entry refers to (installed or not)
-  -- succeeds; one that an installed entry refers to is refused
+  -- DELETE of an installed group or next-hop that an installed entry refers to is refused; in every
+  -- other case, including a key that is not installed, a well-formed DELETE succeeds
   let st := if st.blind then st else
     match referrersOf st.implEnts op.ni op.key with
-    | some 0 =>
-      if op.cls == .wf && st.model.nis.contains op.ni && !(match op.key with | .nhg 0 | .nh 0 => true | _ => false) && fails.contains op.id
-      then st.monfail "c03" s!"DELETE {op.id} of {showKey op.key} in {op.ni} was refused although no installed entry refers to it"
-      else st
     | some n =>
-      if oks.contains op.id && Map.has st.implEnts (op.ni, op.key)
-      then st.monfail "c03" s!"DELETE {op.id} of {showKey op.key} in {op.ni} succeeded although {n} installed entries refer to it"
+      let installed := Map.has st.implEnts (op.ni, op.key)
+      if installed && n > 0 then
+        if oks.contains op.id
+        then st.monfail "c03" s!"DELETE {op.id} of {showKey op.key} in {op.ni} succeeded although {n} installed entries refer to it"
+        else st
+      else if op.cls == .wf && st.model.nis.contains op.ni && !(match op.key with | .nhg 0 | .nh 0 => true | _ => false) && fails.contains op.id
+      then st.monfail "c03" s!"DELETE {op.id} of {showKey op.key} in {op.ni} was refused although {if installed then "no installed entry refers to it" else "it is not installed"}"
       else st
     | none => st
   let st := failedTrace st oks fails
